@@ -167,6 +167,23 @@ def gen_lengths(tier, seed):
                     yield {'south': south, 'zone': z, 'e1': e1, 'n1': round(float(n_[0]), 4), 'brgs': part, 'lengths': lens}
 
 
+def gen_equator(tier, seed):
+    """lines whose SECOND point lies a few metres inside the hemisphere, next to the equator (northing just under the false
+    northing / just above 0), the first point far from the central meridian: any intermediate estimate of the second point that
+    overshoots lands in the other hemisphere's northing range"""
+    use_ell('grs80')
+    for south in (True, False):
+        for z in (31, 55):
+            for e1 in (1.7e5, 3.2e5, 5.0e5, 6.9e5, 8.3e5):
+                for L in (1.0e4, 1.0e5):
+                    for b in (0.0, 25.0, 335.0, 60.0, 300.0):
+                        bb = b if south else (b + 180.0) % 360.0
+                        for d in (2.0, 12.0, 60.0, 120.0):
+                            n2 = (FN - d) if south else d
+                            n1 = round(n2 - L * math.cos(math.radians(bb)), 4)
+                            yield {'south': south, 'zone': z, 'e1': e1, 'n1': n1, 'brgs': [bb], 'lengths': [L]}
+
+
 def gen_both(tier, seed):
     # identical (zone, easting, northing) interpreted in the southern and then the northern hemisphere (and the reverse)
     # inside one process
@@ -349,7 +366,7 @@ from gpmc import callforms as _cf
 from gpmc import interp as _ip
 
 
-SUBCHECKS = [Sub('grid_geodesic', gen, ev, chunk=1, floor=500, guard=True, envs=8), Sub('ellipsoids', gen_ell, ev, chunk=1, floor=300, guard=True), Sub('special_zones', gen_special, ev, chunk=1, floor=100, guard=True), Sub('lengths', gen_lengths, ev, chunk=1, floor=300, guard=True), Sub('both_hemispheres', gen_both, ev_both, chunk=1, floor=100, guard=True, envs=4), Sub('threads', _tg, _te, chunk=1, floor=3, poison=False, fresh=True, timeout=3600), Sub('callforms', *_cf.make('C14', 'geodesy'), chunk=1, floor=1, guard=True), Sub('interpreter', *_ip.make('C14', 'geodesy'), chunk=1, floor=5, poison=False)]
+SUBCHECKS = [Sub('grid_geodesic', gen, ev, chunk=1, floor=500, guard=True, envs=8), Sub('ellipsoids', gen_ell, ev, chunk=1, floor=300, guard=True), Sub('special_zones', gen_special, ev, chunk=1, floor=100, guard=True), Sub('lengths', gen_lengths, ev, chunk=1, floor=300, guard=True), Sub('near_equator', gen_equator, ev, chunk=8, floor=300, guard=True), Sub('both_hemispheres', gen_both, ev_both, chunk=1, floor=100, guard=True, envs=4), Sub('threads', _tg, _te, chunk=1, floor=3, poison=False, fresh=True, timeout=3600), Sub('callforms', *_cf.make('C14', 'geodesy'), chunk=1, floor=1, guard=True), Sub('interpreter', *_ip.make('C14', 'geodesy'), chunk=1, floor=5, poison=False)]
 
 
 def bounds(tier, seed):
